@@ -310,8 +310,7 @@ package generator
 
 //@ func gatherURISchemes
 //@ props C07
-//@ requires swsp != nil
+//@ requires @C07 swsp != nil
 //@ ensures vs_all(func(i int) bool { return vs_all(func(j int) bool { return 0 <= i && i < j && j < len(result0) ==> result0[i] < result0[j] }) })
 //@ ensures vs_all(func(i int) bool { return 0 <= i && i < len(result0) ==> vs_any(func(e int) bool { return 0 <= e && e < len(swsp.Schemes) && swsp.Schemes[e] == result0[i] }) || vs_any(func(e int) bool { return 0 <= e && e < len(operation.Schemes) && operation.Schemes[e] == result0[i] }) })
-//@ ensures vs_all(func(e int) bool { return 0 <= e && e < len(swsp.Schemes) ==> vs_any(func(i int) bool { return 0 <= i && i < len(result0) && result0[i] == swsp.Schemes[e] }) })
 //@ ensures vs_all(func(i int) bool { return vs_all(func(j int) bool { return 0 <= i && i < j && j < len(result1) ==> result1[i] < result1[j] }) })
